@@ -113,7 +113,7 @@ def _patch_list() -> list:
                 with open(meta) as f:
                     m = json.load(f)
                 out.append({"id": "seeded/" + n, "path": os.path.join(sdir, n, "patch.diff"), "prop": m["property"],
-                            "expect": ("alarm-probabilistic" if m.get("probabilistic") else "alarm") if m.get("caught", True) else "not-claimed",
+                            "expect": ("alarm-probabilistic" if (m.get("probabilistic") or m.get("thorough_only")) else "alarm") if m.get("caught", True) else "not-claimed",
                             "demo": os.path.join(sdir, n, m.get("demo", "demo.py"))})
     return out
 
@@ -170,7 +170,7 @@ def sensitivity(args) -> int:
             elif pt["expect"] == "not-claimed":
                 res = "caught (not claimed)" if alarm else "not caught (by decision, see meta.json)"
             elif pt["expect"] == "alarm-probabilistic":
-                res = "caught" if alarm else "not caught this time (probabilistic in the quick tier, see meta.json)"
+                res = "caught" if alarm else "not caught in the quick tier (probabilistic there, or thorough tier only - see meta.json)"
             elif pt["expect"] == "alarm":
                 res = "caught" if alarm else "MISSED"
                 if not alarm:
